@@ -40,8 +40,8 @@ type Site struct {
 	Guard  string   `json:"guard,omitempty"`
 	Detail []string `json:"detail,omitempty"`
 	// close
-	Path  string `json:"close_path,omitempty"` // exit, presession, peerimpl, other
-	Role  string `json:"role,omitempty"`
+	Path  string   `json:"close_path,omitempty"` // exit, presession, peerimpl, other
+	Role  string   `json:"role,omitempty"`
 	After []string `json:"after,omitempty"`
 	// msgsend
 	Assigned bool `json:"definitely_assigned,omitempty"`
